@@ -155,6 +155,7 @@ def gen_script(ctx, W, t, n, plan_hint, plan_det=True):
             c = G.gen_call(t, W.D, W.P)
             if c:
                 ops.append({"kind": "applicable", "state": sref, "call": c, "det": abs_of[sref] is not None})
+                operators.append((len(ops) - 1, c))  # the queried operator object stays in the script's hands
         elif k == 8:
             c = G.gen_call(t, W.D, W.P)
             if c:
@@ -338,6 +339,7 @@ def exec_op(env, ops, i, store):
         if st is None:
             return ("skipped",)
         op = lib.Operator(d.actions[o["call"][0]], d, list(o["call"][1]), p.objects)
+        store[i] = {"op": op}
         try:
             return ("bool", bool(op.is_applicable(st)))
         except schedmod.SimCancel:
@@ -679,7 +681,7 @@ def run(ctx):
         if sc.chance(1, 2):
             # aim one cancellation into the first use of an operator that the script re-uses later
             cands = [(ti, o["op"]) for ti, ops in enumerate(scripts) for o in ops
-                     if o["kind"] in ("reapply", "reapply_tmp") and ops[o["op"]]["kind"] == "apply"]
+                     if o["kind"] in ("reapply", "reapply_tmp") and ops[o["op"]]["kind"] in ("apply", "applicable")]
             if cands:
                 targeted[cands[sc.draw(len(cands))]] = 1 + sc.draw(1 << sc.draw(11))
                 ctx.probes["targeted_cancellation"] += 1
